@@ -38,7 +38,28 @@ const (
 	scriptTrap   = 4
 	scriptBadPre = 5
 	scriptNoRaw  = 6
+	scriptEmpty  = 7 // asks ds 1 eid 1; execute returns zero bytes -> SUCCESS with an empty result
 )
+
+var watEmptyReturn = `
+(module
+	(type $t0 (func))
+	(type $t1 (func (param i64 i64 i64 i64)))
+	(type $t2 (func (param i64 i64)))
+	(import "env" "ask_external_data" (func $ask_external_data (type $t1)))
+	(import "env" "set_return_data" (func $set_return_data (type $t2)))
+	(func $prepare (export "prepare") (type $t0)
+	  i64.const 1
+	  i64.const 1
+	  i64.const 1024
+	  i64.const 4
+	  call $ask_external_data)
+	(func $execute (export "execute") (type $t0)
+	  i64.const 1024
+	  i64.const 0
+	  call $set_return_data)
+	(memory $memory (export "memory") 17)
+	(data (i32.const 1024) "test"))`
 
 var watNoReturn = `
 (module
@@ -85,7 +106,7 @@ func compiledOracleScripts() [][]byte {
 			}
 			return b
 		}
-		for _, code := range [][]byte{testdata.Wasm1, testdata.Wasm4, w2w(watNoReturn), w2w(watTrap), testdata.Wasm2, testdata.Wasm3} {
+		for _, code := range [][]byte{testdata.Wasm1, testdata.Wasm4, w2w(watNoReturn), w2w(watTrap), testdata.Wasm2, testdata.Wasm3, w2w(watEmptyReturn)} {
 			compiledScripts = append(compiledScripts, testdata.Compile(code))
 		}
 	})
@@ -343,7 +364,7 @@ func (a *OracleActor) costOf(script int, calldata []byte, ask uint64) sdk.Coins 
 		}
 	case scriptSimple:
 		ids = []int64{1, 2, 3}
-	case scriptNoRet, scriptTrap:
+	case scriptNoRet, scriptTrap, scriptEmpty:
 		ids = []int64{1}
 	}
 	cost := sdk.NewCoins()
@@ -482,4 +503,29 @@ func wasmSrc(wat string) []byte {
 		panic(err)
 	}
 	return b
+}
+
+// SamplingParamChurn: governance proposals that change the oracle's sampling_try_count, including the invalid value 0 (which
+// parameter validation has to refuse: with zero tries no committee can be drawn).
+type SamplingParamChurn struct {
+	Rate int
+}
+
+func (p *SamplingParamChurn) OnBlock(e *Env, blk *world.BlockRecord) {}
+func (p *SamplingParamChurn) Act(e *Env) {
+	if e.Draining || e.Step < 4 || !e.Ch.Bool("oracle.churn", p.Rate) {
+		return
+	}
+	gov := getGov(e)
+	if gov == nil {
+		return
+	}
+	np := e.App().OracleKeeper.GetParams(e.Ctx())
+	np.SamplingTryCount = uint64(e.Ch.Intn("oracle.churn.try", 7)) // 0 is invalid
+	if np.SamplingTryCount == 0 {
+		e.St.Fault("proposal_with_invalid_sampling_try_count")
+	} else {
+		e.St.Fault("sampling_try_count_changed_by_governance")
+	}
+	gov.Propose(e, "params_oracle", nil, &oracletypes.MsgUpdateParams{Authority: govAuthority, Params: np})
 }
